@@ -43,7 +43,9 @@ PROPS = {
                      "mesh values. Every enumerated input whose floating-point decision is determined is executed on the real code: the "
                      "statement's clauses are evaluated on the returned sets and matrices (integers exactly, matrices to 1e-8), and the "
                      "sets are compared with the specification's where the statement fixes them (inside the precondition, tolerance "
-                     "<= 1e-3). Random executions are recorded and every clause of WignerSeitzRec is evaluated on them by TLC.",
+                     "<= 1e-3). Random executions are recorded and every clause of WignerSeitzRec is evaluated on them by TLC. Numeric only "
+                     "(no level claim): random real lattices with 1..8 mesh points per direction, and get_system_w90 on the bundled Si "
+                     "checkpoint (2x2x2) against chk.get_HH_q.",
                 note="lattices are Cholesky factors of integer Gram matrices; shifts with a distance on (or, for centres that are not "
                      "decimal fractions, within the code's decimal rounding of) the tolerance boundary are excluded by the predicates "
                      "Ambiguous / near; which replicas are kept with a loose tolerance (1/4, 1/2) or outside the search-box precondition "
@@ -734,6 +736,81 @@ def rt_configs_of(thorough):
         ]
 
 
+W90_SETS = (("Si_Wannier90", "Si"),)
+
+
+def replay_w90(rep):
+    """get_system_w90 on the smallest bundled Wannier90 data set (numeric only): H(R) built from the checkpoint, interpolated back to
+    the ab-initio mesh, must reproduce chk.get_HH_q; X(-R) = X(R)^+; weights per mesh class.  Skipped (recorded) when the data or the
+    loader API is not there."""
+    from ..common import REPO
+    done_sets, worst = [], 0.0
+    for dirname, seedname in W90_SETS:
+        path = os.path.join(REPO, "tests", "data", dirname, seedname)
+        if not (os.path.exists(path + ".chk") and os.path.exists(path + ".eig")):
+            skipped_private(rep, f"tests/data/{dirname} (get_system_w90 replay)", "chk / eig file not found")
+            continue
+        for tol, lib in ((1e-5, "fftw"), (1e-3, "numpy")):
+            det = dict(data=f"tests/data/{dirname}/{seedname}", ws_dist_tol=tol, fftlib=lib)
+
+            def run():
+                import wannierberri as wb
+                from wannierberri.w90files.wandata import WannierData
+                with quiet():
+                    wd = WannierData.from_w90_files(seedname=path, files=("chk", "eig"), readnnkp=False)
+                    syst = wb.system.System_w90(wd, symmetrize=False, ws_dist_tol=tol, fftlib=lib)
+                    kptirr, wk = wd.kptirr_system
+                    HHq = np.asarray(wd.chk.get_HH_q(wd.eig, kptirr=kptirr, weights_k=wk))
+                    kred = np.array(wd.kpt_red, dtype=float)
+                    N = [int(x) for x in wd.mp_grid]
+                    rv = syst.rvec.copy()
+                    XR = np.asarray(syst.get_R_mat("Ham"))
+                    rv.set_fft_R_to_k(NK=None, num_wann=syst.num_wann, k_list=kred)
+                    back_list = np.asarray(rv.R_to_k(XR.copy(), hermitian=False))
+                    rv.set_fft_R_to_k(NK=N, num_wann=syst.num_wann, fftlib=lib)
+                    back_grid = np.asarray(rv.R_to_k(XR.copy(), hermitian=False))
+                return syst, HHq, kred, N, XR, back_list, back_grid
+            try:
+                done, res = guarded(rep, "get_system_w90", det, run)
+            except ImportError as ex:
+                skipped_private(rep, "wannierberri.w90files.wandata.WannierData (get_system_w90 replay)", ex)
+                return
+            rep.case(("w90", dirname, tol, lib), nontrivial=False)
+            if not done:
+                continue
+            syst, HHq, kred, N, XR, back_list, back_grid = res
+            nw = int(syst.num_wann)
+            scale = max(1.0, float(np.abs(HHq).max()))
+            d = float(np.abs(back_list - HHq).max()) / scale if back_list.shape == HHq.shape else float("inf")
+            if d > 1e-8:
+                rep.violation("w90:round_trip:k_list", dict(det, relative_deviation=d))
+            kg = np.round(kred * np.array(N)).astype(int) % np.array(N)
+            grid = np.zeros_like(HHq)
+            for i, k in enumerate(kg):
+                grid[(k[0] * N[1] + k[1]) * N[2] + k[2]] = HHq[i]
+            d2 = float(np.abs(back_grid - grid).max()) / scale if back_grid.shape == grid.shape else float("inf")
+            if d2 > 1e-8:
+                rep.violation(f"w90:round_trip:{lib}", dict(det, relative_deviation=d2))
+            worst = max([worst] + [x for x in (d, d2) if np.isfinite(x)])
+            Rlist = irvec_of(syst.rvec)
+            cen = np.asarray(syst.wannier_centers_red, dtype=float)
+            inside = bool(np.abs(cen[:, None, :] - cen[None, :, :]).max() <= 1.5 - 1e-6)
+            if inside:
+                d3 = float(np.abs(harness_conj(XR, Rlist) - XR).max()) / scale
+                worst = max(worst, d3)
+                if d3 > 1e-8:
+                    rep.violation("w90:hermitian_R", dict(det, relative_deviation=d3))
+            ok, sets = guarded(rep, "w90:replica_sets", det, lambda: replica_sets(rep, syst.rvec, N, nw)[0])
+            if ok:
+                for (a, b), ps in sets.items():
+                    if len(set(ps)) != len(ps) or not weights_ok(set(ps), N):
+                        rep.violation("w90:weights", dict(det, pair=[a, b], replicas=str(sorted(ps))[:600]))
+            done_sets.append(dict(det, mp_grid=N, num_wann=nw, nRvec=len(Rlist), centres_inside_precondition=inside))
+    rep.part("numeric_only_w90", runs=done_sets, max_relative_deviation=worst,
+             what="System_w90 (get_system_w90) from the bundled chk + eig: R_to_k(Ham_R) at the ab-initio k-points (k-list and FFT on the "
+                  "mesh) equals chk.get_HH_q, X(-R) = X(R)^+, weights per mesh class (1e-8); no exact oracle")
+
+
 # ---------------------------------------------------------------- the check
 def check(pid, tier):
     rep = Report(pid, tier, "model_checking")
@@ -979,4 +1056,5 @@ def _check(rep, tier):
         raise MachineryError("the forced record of the binding self-test could not be produced")
 
     numeric_only(rep, rng, 300 if thorough else 40)
+    replay_w90(rep)
     return rep.finish()
